@@ -164,3 +164,35 @@ def jsonable(x):
     if isinstance(x, (set, frozenset)):
         return {"__set__": sorted(map(repr, x))}
     return x
+
+
+def unjson(x):
+    if isinstance(x, list):
+        return [unjson(y) for y in x]
+    if isinstance(x, dict) and "__tuple__" in x:
+        return tuple(unjson(y) for y in x["__tuple__"])
+    if isinstance(x, dict) and "__dict__" in x:
+        return {k: unjson(v) for k, v in x["__dict__"]}
+    return x
+
+
+def replay_history(prop, sim, payload, coq_import, proj_term, oracle_history):
+    """Re-execute the history of a replay file on implementation, oracle and model, side by side."""
+    detail = payload.get("detail", payload)
+    hist = detail.get("history") or payload.get("history")
+    if hist is None:
+        print("replay file has no history; broken obligation:", payload.get("broken"), detail)
+        return 1
+    ops = unjson(hist)
+    r, mtrace = model_trace(prop, sim, ops, coq_import)
+    for i, (op, exc, w, ob) in enumerate(zip(r["ops"], r["excs"], r["warns"], r["obs"])):
+        print(f"step {i}: {op}\n   implementation: outcome={exc or 'returns'} warnings={w}")
+        for k in ("nodes", "edges", "nattr", "eattr", "uid", "broken"):
+            if k in ob and ob[k] not in (None,):
+                print(f"      {k}: {ob[k]}")
+    f = oracle_history(r)
+    print("oracle:", f"FAILS at step {f[0]}: {f[1]}" if f else "holds on every observed state")
+    m, errs = eval_histories(prop, sim, [r], coq_import, proj_term)
+    print("correspondence:", f"model and implementation differ at step {m[0][1]}" if m else "model agrees with implementation", errs or "")
+    print("model trace (raw Coq output):\n" + mtrace)
+    return 1 if (f or m) else 0
